@@ -17,6 +17,8 @@ mkdir -p "$ROOT/coq/Gen" "$ROOT/build/gen"
 cmp -s "$ROOT/build/gen/Facts_gen.v" "$ROOT/coq/Gen/Facts_gen.v" || cp "$ROOT/build/gen/Facts_gen.v" "$ROOT/coq/Gen/Facts_gen.v"
 "$ROOT/build/vh" translate -out "$ROOT/build/gen/translate" "$ROOT/build/gen/Wrappers_gen.v" >/dev/null || exit 1
 cmp -s "$ROOT/build/gen/Wrappers_gen.v" "$ROOT/coq/Gen/Wrappers_gen.v" || cp "$ROOT/build/gen/Wrappers_gen.v" "$ROOT/coq/Gen/Wrappers_gen.v"
+"$ROOT/build/vh" comparators -out "$ROOT/build/gen/comparators" "$ROOT/build/gen/Comparators_gen.v" >/dev/null || exit 1
+cmp -s "$ROOT/build/gen/Comparators_gen.v" "$ROOT/coq/Gen/Comparators_gen.v" || cp "$ROOT/build/gen/Comparators_gen.v" "$ROOT/coq/Gen/Comparators_gen.v"
 cd "$ROOT/coq"
 if [ ! -f Makefile ] || [ _CoqProject -nt Makefile ]; then
   coq_makefile -f _CoqProject -o Makefile >/dev/null
